@@ -1194,7 +1194,99 @@ def legal_history(h):
         elif o == 'f': freed = True
     return True
 
-CHECKS = {'C18': check_C18, 'C14': check_C14, 'C20': check_C20, 'C10': check_C10, 'C05': check_C05, 'C17': check_C17, 'C11': check_C11, 'C13': check_C13, 'C15': check_C15, 'C16': check_C16, 'C19': check_C19, 'C01': check_C01, 'C07': check_C07, 'C08': check_C08, 'C09': check_C09, 'C12': check_C12, 'C03': check_C03, 'C02': check_C02, 'C04': check_C04}
+# ------------------------------------------------------------------ C06
+def c06_corpus(ctx):
+    rnd = ctx.rnd
+    L = gens.local_class(4) + gens.local_sweep()[::2] + gens.utf8_lines(False)[::5] + gens.local_random(rnd, 5000)
+    # truncated multi-byte sequences and look-ahead triggers right at the terminator
+    for pre in (b'', b'a', b'"', b'a.', b'"\\'):
+        for u in (b'\xc3', b'\xe2', b'\xe2\x82', b'\xf0', b'\xf0\x9f', b'\xf0\x9f\x98', b'\r', b'\r\n', b'.', b'"', b'\\', b' ', b'-'):
+            L.append('L %s -' % hx(pre + u))
+    D = gens.dom_lines(gens.dom_class(5) + gens.dom_boundary() + gens.dom_sweep()[::3]) + gens.dom_lines(gens.dom_class(3), rests=(b'x', b'.'))
+    I = []
+    for c in gens.ip_contents():
+        for k in '46P':
+            I.append('%s %s %s' % (k, hx(c), hx(b']'))); I.append('%s %s -' % (k, hx(c)))
+    S = ['S %s' % hx(d) for d in gens.reserved_domains()] + ['T %s' % hx(d) for d in gens.reserved_domains()[::3]] + ['S %s' % hx(d) for d in gens.dom_class(4)]
+    addrs = gens.addr_class(4) + gens.addr_structured() + gens.addr_boundary() + [b'u@[' + c + b']' for c in gens.ip_contents()[::2]]
+    # every byte value at the structural positions of an address
+    for c in range(1, 256):
+        ch = bytes([c])
+        addrs += [ch + b'a@b.com', b'a' + ch + b'@b.com', b'a@' + ch + b'b.com', b'a@b.com' + ch, b'a@b' + ch + b'.com', b'a@[' + ch + b'1.2.3.4]', b'a@[1.2.3.4' + ch + b']', b'a@[1.2.3.4]' + ch,
+                  b'"' + ch + b'"@b.com', b'"a"' + ch + b'@b.com', b'a.' + ch + b'.b@c.d']
+    # long inputs up to 64 KiB
+    for n in (255, 256, 1000, 4096, 65000):
+        for shape in (b'a' * n + b'@b.com', b'a@' + b'b' * n, b'a@' + (b'b.' * (n // 2)), b'.' * n, b'@' * n, b'a@[' + b':' * n + b']', b'a@[' + b'1.' * (n // 2) + b']', b'"' + b'\\"' * (n // 2) + b'"@x.y',
+                      ('я' * (n // 2)).encode() + b'@b.com', b'a@' + ('я' * (n // 2)).encode() + b'.com', b'"' * n, b'a@' + b'-' * n):
+            addrs.append(shape)
+    addrs = [a for a in addrs if 0 not in a]
+    return L, D, I, S, sorted(set(addrs))
+
+def check_C06(ctx):
+    step_proof(ctx)
+    L, D, I, S, addrs = c06_corpus(ctx)
+    orc = vlib.idn_oracle(gens.domains_of(addrs) | gens.domains_of(gens.HIST_POOL))
+    E = gens.e_lines(addrs, orc)
+    U = gens.u_lines(sorted(gens.domains_of(addrs))[::3], orc)
+    H = gens.hist_exhaustive(orc, 2) + gens.hist_random(ctx.rnd, orc, 1500, length=30)
+    cases = L + D + I + S + E + U
+    desc = lambda ln, a, b: 'memory-safety run: the implementation crashed / was stopped by a sanitizer or a guard page, or answered differently from the model: %s vs %s' % (a, b)
+    # (a) ASan + UBSan + LSan, every input in an exact-size heap block
+    ls = ctx.snap.lib(san=True)
+    def crashed(ln, a, b): return 'CRASH' in a
+    for name, lib, env, lines in (('asan+ubsan(tight heap blocks)', ls, {'DRV_PLACE': 'tight'}, cases), ('asan+ubsan(histories)', ls, {}, H)):
+        c_out, m_out = vlib.run_both(lib, ctx.snap, lines, env=env)
+        ctx.rep.add_cases(name, lines, c_out, lambda ln, o: True, note='gcc -fsanitize=address,undefined -fno-sanitize-recover=all; leaks checked at exit')
+        bad = [(l, a, b) for l, a, b in zip(lines, c_out, m_out) if a != b]
+        for l, a, b in sorted(bad, key=lambda t: (not crashed(*t), len(t[0])))[:3]:
+            ctx.rep.violation({'kind': 'memory-safety', 'run': name, 'case': l[:600], 'implementation': a[:800], 'model': b[:200], 'explanation': desc(l, a[:300], b[:100])}, found_input=crashed(l, a, b))
+    # (b) guard pages, default -O2 build: terminator at the end of a page / first byte at the start of a page
+    ld = ctx.snap.lib()
+    for pm in ('guard_end', 'guard_start'):
+        c_out, m_out = vlib.run_both(ld, ctx.snap, cases, env={'DRV_PLACE': pm})
+        ctx.rep.add_cases('guard-pages(%s)' % pm, cases, c_out, lambda ln, o: True, note='PROT_NONE page right after the terminator / right before the first byte; default -O2 build')
+        bad = [(l, a, b) for l, a, b in zip(cases, c_out, m_out) if a != b]
+        for l, a, b in sorted(bad, key=lambda t: (not crashed(*t), len(t[0])))[:3]:
+            ctx.rep.violation({'kind': 'memory-safety', 'run': 'guard-pages(%s)' % pm, 'case': l[:600], 'implementation': a[:300], 'model': b[:200],
+                               'explanation': 'a byte outside [first byte, terminator] was read (SIGSEGV on the guard page)' if crashed(l, a, b) else desc(l, a, b)}, found_input=crashed(l, a, b))
+    # (c) valgrind memcheck: eav_t on uninitialised heap memory, uninitialised reads are errors
+    sub = H[:120 if not ctx.thorough() else 1500] + E[:300]
+    c_out, m_out = vlib.run_both(ld, ctx.snap, sub, shards=8, env={'DRV_NOPOISON': '1', 'DRV_LINEBUF': '1'}, wrapper=['valgrind', '-q', '--error-exitcode=99', '--exit-on-first-error=yes', '--track-origins=no'])
+    ctx.rep.add_cases('valgrind(uninitialised eav_t)', sub, c_out, lambda ln, o: True, note='eav_t malloc()ed and left uninitialised before eav_init; memcheck')
+    bad = [(l, a, b) for l, a, b in zip(sub, c_out, m_out) if a != b]
+    for l, a, b in bad[:2]:
+        ctx.rep.violation({'kind': 'memory-safety', 'run': 'valgrind', 'case': l[:600], 'implementation': a[:600], 'model': b[:200],
+                           'explanation': 'valgrind memcheck stopped the run (uninitialised read / invalid access) or the outcome differs from the model'}, found_input='CRASH' in a)
+    # (d) linear work: instruction counts (callgrind) on adversarial shapes at n, 2n, 4n
+    import subprocess
+    shapes = {'all-dots': lambda n: b'.' * n, 'all-at': lambda n: b'@' * n, 'long-local': lambda n: b'a' * n + b'@b.com', 'many-labels': lambda n: b'a@' + b'b.' * (n // 2) + b'c',
+              'one-label': lambda n: b'a@' + b'b' * n, 'colons': lambda n: b'a@[' + b':' * n + b']', 'quoted-pairs': lambda n: b'"' + b'\\"' * (n // 2) + b'"@x.y', 'utf8': lambda n: ('я' * (n // 2)).encode() + b'@b.com'}
+    if not ctx.thorough():
+        shapes = {k: shapes[k] for k in ('all-dots', 'many-labels', 'quoted-pairs', 'utf8')}
+    base_n = 4000
+    lin = {}
+    for name, f in shapes.items():
+        irs = []
+        for n in (base_n, 2 * base_n, 4 * base_n):
+            lines = gens.e_lines([f(n)], {}) * 3
+            p = subprocess.run(['valgrind', '--tool=callgrind', '--callgrind-out-file=/dev/null', ld.drv()], input=('\n'.join(lines) + '\n').encode(), stdout=subprocess.PIPE, stderr=subprocess.PIPE)
+            m = re.search(r'Collected : (\d+)', p.stderr.decode())
+            irs.append(int(m.group(1)) if m else -1)
+        lin[name] = irs
+        # subtract the fixed start-up cost by differencing: (Ir(4n)-Ir(2n)) <= 2.3 * (Ir(2n)-Ir(n)) + slack
+        if min(irs) > 0:
+            d1, d2 = irs[1] - irs[0], irs[2] - irs[1]
+            if d2 > 2.3 * d1 + 200000:
+                ctx.rep.violation({'kind': 'super-linear', 'shape': name, 'n': [base_n, 2 * base_n, 4 * base_n], 'instructions': irs,
+                                   'explanation': 'work grows faster than linearly in the input length (callgrind instruction counts, deterministic)'})
+    ctx.rep.notes.append('callgrind instruction counts at n, 2n, 4n (n = %d): %s' % (base_n, lin))
+    return finish(ctx, rule='every generated case runs (a) on an ASan+UBSan+LSan build with the input in an exact-size heap block, (b) on the default build with PROT_NONE pages right after the terminator '
+                  'and right before the first byte, (c) under valgrind memcheck with eav_t on uninitialised heap memory, and (d) callgrind instruction counts at n/2n/4n for adversarial shapes; '
+                  'outputs are also compared with the model; a crash / sanitizer stop is a concrete failing input',
+                  extra_trusted=['gcc ASan/UBSan/LSan, valgrind 3.19 memcheck and callgrind', 'partial: compiler-level UB that sanitizers do not see, libc/libidn2 internals, inputs >= 2 GiB are outside what is shown'],
+                  extra_cov={'callgrind_instruction_counts': lin})
+
+CHECKS = {'C06': check_C06, 'C18': check_C18, 'C14': check_C14, 'C20': check_C20, 'C10': check_C10, 'C05': check_C05, 'C17': check_C17, 'C11': check_C11, 'C13': check_C13, 'C15': check_C15, 'C16': check_C16, 'C19': check_C19, 'C01': check_C01, 'C07': check_C07, 'C08': check_C08, 'C09': check_C09, 'C12': check_C12, 'C03': check_C03, 'C02': check_C02, 'C04': check_C04}
 
 def main():
     if len(sys.argv) >= 3 and sys.argv[1] == 'replay':
